@@ -912,7 +912,8 @@ func (g *gen) derivePlus(p *pattern) string {
 			if len(mvs) > 0 {
 				x := mvs[g.r.Intn(len(mvs))]
 				y := mvs[g.r.Intn(len(mvs))]
-				return g.pick("newCall("+x+", "+y+")", x+" + "+y, "T2{"+x+"}", "pkg.Fn("+x+")", x+".Method("+y+")", "&"+x, x) + "\n"
+				return g.pick("newCall("+x+", "+y+")", x+" + "+y, "T2{"+x+"}", "pkg.Fn("+x+")", x+".Method("+y+")", "&"+x, x,
+					"("+x+") == nil", "!("+x+")", "(("+x+"))", "("+x+")."+"Field", "keep(("+x+"), ("+y+"))") + "\n"
 			}
 			return "replaced(1)\n"
 		case 2:
